@@ -160,6 +160,8 @@ def rule_r3(chk, lhs_classes):
                 return sym("r")
             if base == ps[2] and idx == "self._shift":
                 return sym("y")
+            if base == ps[2]:
+                return sym(f"x_before[{idx}]")      # a reference level taken somewhere else than at the plan's shift: a different quantity
             return None
         try:
             lev = alg.ToIR(subscript=subscript, free_names=False)(rets[0].value)
@@ -393,14 +395,74 @@ def rule_r7(chk):
         chk.ob("C17-R7", f"sequentials._simulate.{q}[dispatch]", ok, f"{unparse(disp[0])[:100]}", m.loc(disp[0]))
 
 
+def rule_r8(chk):
+    chk.rule("C17-R8", "derived name tables are rebuilt before they are used: in every method of the sequential Invariant that replaces "
+             "self.explanatories and then calls helpers on self, a helper that (transitively) reads attributes is called only after "
+             "the helpers that (transitively) write those attributes - finalize_explanatories compiles row indexes from the name "
+             "tables that collect_names rebuilds", floor=2, shape_independent=True)
+    im = chk.repo.mod("irispie.sequentials._invariants")
+    meths = im.methods("Invariant")
+
+    def closure(name, what, seen=None):
+        seen = seen or set()
+        if name in seen or name not in meths:
+            return set()
+        seen.add(name)
+        f = meths[name]
+        out = set()
+        for n in ast.walk(f):
+            if isinstance(n, ast.Attribute) and isinstance(n.value, ast.Name) and n.value.id == "self":
+                if what == "w" and isinstance(n.ctx, ast.Store):
+                    out.add(n.attr)
+                if what == "r" and isinstance(n.ctx, ast.Load) and n.attr not in meths:
+                    out.add(n.attr)
+                if isinstance(n.ctx, ast.Load) and n.attr in meths:          # a property (or a method about to be called): follow it
+                    out |= closure(n.attr, what, seen)
+            if isinstance(n, ast.Call) and isinstance(n.func, ast.Attribute) and isinstance(n.func.value, ast.Name) and n.func.value.id == "self":
+                out |= closure(n.func.attr, what, seen)
+        return out
+    n_sites = 0
+    for name, f in sorted(meths.items()):
+        body = strip_docstring(f.body)
+        stores = [i for i, st in enumerate(body) if isinstance(st, ast.Assign) and any(unparse(t) == "self.explanatories" for t in st.targets)]
+        if not stores:
+            continue
+        calls = [(i, st.value.func.attr, st) for i, st in enumerate(body) if i > stores[0] and isinstance(st, ast.Expr) and isinstance(st.value, ast.Call)
+                 and isinstance(st.value.func, ast.Attribute) and unparse(st.value.func.value) == "self" and st.value.func.attr in meths]
+        if len(calls) < 2:
+            continue
+        n_sites += 1
+        chk.saw(im, f"Invariant.{name}")
+        bad = None
+        for a in range(len(calls)):
+            for b in range(a + 1, len(calls)):
+                stale = closure(calls[a][1], "r") & closure(calls[b][1], "w")
+                earlier_writes = set().union(*[closure(c[1], "w") for c in calls[:a]]) if a else set()
+                stale -= earlier_writes
+                if stale:
+                    bad = (calls[a], calls[b], sorted(stale))
+                    break
+            if bad:
+                break
+        chk.ob("C17-R8", f"sequentials._invariants.Invariant.{name}[rebuild before use]", bad is None,
+               f"after replacing self.explanatories: {[c[1] for c in calls]} - every helper runs after the helpers that write what it reads" if bad is None else
+               f"{bad[0][1]}() (line {bad[0][2].lineno}) reads {bad[2][:4]}, which {bad[1][1]}() (line {bad[1][2].lineno}) rebuilds only afterwards: the explanatories are "
+               "finalized against the name order of the OLD equation order", im.loc(bad[0][2]) if bad else im.loc(f), sure=True)
+    if n_sites == 0:
+        raise AnalysisError("anchor vanished: no method of sequentials Invariant replaces self.explanatories and calls helpers")
+
+
 def run(chk):
     classes = chk.guard(rule_r1_r2, chk)
     chk.guard(rule_r3, chk, classes)
     chk.guard(rule_r4, chk)
     chk.guard(rule_r5, chk)
     chk.guard(rule_r7, chk)
+    chk.guard(rule_r8, chk)
     from .. import variants
     chk.guard(variants.apply, chk, "C17-R6", [("irispie.sequentials._simulate", "simulate")])
+    from .. import merge as _merge
+    chk.guard(_merge.apply, chk, "C17-R9", ["irispie.sequentials._simulate"])
     from .. import unused as _unused
     chk.guard(_unused.apply, chk, "C17-R91")
     from .. import args as _args
